@@ -450,7 +450,7 @@ Qed.
 Definition reuse_full_statement : Prop :=
   forall w sub s, wf_taskb (s_task sub) = true -> spec_reuse (fst (observe_submit w sub s)).
 
-Definition w0 : world := {| body := fun _ _ _ => Ok 7; wfval := fun _ _ => 0 |}.
+Definition w0 : world := {| body := fun _ _ _ => Ok 7; wfout := fun _ _ _ => Ok 0 |}.
 Definition shadow_store : store :=
   set_dir (set_dir empty_store 0 5 (Complete Err)) 1 5 (Complete (Ok 7)).
 Definition shadow_state : state := {| st := shadow_store; execs := fun _ => 0; clock := 0 |}.
@@ -772,7 +772,7 @@ Qed.
 Definition ex_wf : task := Wf 9 [Leaf 1; Wf 8 [Leaf 1; Leaf 2]].
 Definition ex_cfg (rt : loc) (ros : list loc) (p : bool) : config := {| root := rt; ro := ros; prop := p |}.
 Definition ex_world : world :=
-  {| body := fun c k _ => if Nat.eqb c 2 && Nat.eqb k 0 then Err else Ok (10 + c); wfval := fun c vs => 100 * c + List.length vs |}.
+  {| body := fun c k _ => if Nat.eqb c 2 && Nat.eqb k 0 then Err else Ok (10 + c); wfout := fun c _ vs => Ok (100 * c + List.length vs) |}.
 Definition ex_history : list step :=
   [ Submit {| s_task := ex_wf; s_cfg := ex_cfg 0 [] true; s_rerun := false |};      (* node 2 fails *)
     Submit {| s_task := ex_wf; s_cfg := ex_cfg 0 [] true; s_rerun := false |};      (* 1 reused, rest executed *)
